@@ -43,6 +43,7 @@ pub fn vcf_header(cols: &[String]) -> String {
     let mut s = String::new();
     s.push_str("##fileformat=VCFv4.3\n");
     s.push_str("##FILTER=<ID=PASS,Description=\"All filters passed\">\n");
+    s.push_str("##FILTER=<ID=q10,Description=\"Quality below 10\">\n");
     s.push_str("##contig=<ID=chr1,length=100000>\n##contig=<ID=chr2,length=100000>\n");
     s.push_str("##INFO=<ID=DP,Number=1,Type=Integer,Description=\"Depth\">\n");
     s.push_str("##FORMAT=<ID=GT,Number=1,Type=String,Description=\"Genotype\">\n");
@@ -70,10 +71,12 @@ pub fn vcf_record(cols: &[String], r: &Rec, index: usize, extra: bool) -> String
     let alt: Vec<&str> = if n_alt == 0 { vec!["."] } else { alts.iter().take(n_alt as usize).copied().collect() };
     let pos = if r.bad && index % 2 == 0 { "notanumber".to_string() } else { r.pos.to_string() };
     let mut s = format!(
-        "{}\t{}\t.\tA\t{}\t.\t.\t{}\t{}",
+        "{}\t{}\t.\tA\t{}\t.\t{}\t{}\t{}",
         r.contig,
         pos,
         alt.join(","),
+        // the FILTER column is none of the tool's business: '.', PASS and a failing filter alternate
+        ["q10", ".", "PASS"][index % 3],
         if extra { "DP=14" } else { "." },
         if r.nogt { "DP" } else if extra { "GT:DP" } else { "GT" }
     );
@@ -95,6 +98,11 @@ pub fn vcf_record(cols: &[String], r: &Rec, index: usize, extra: bool) -> String
     }
     s.push('\n');
     s
+}
+
+/// Like `vcf_text`, but the header does NOT declare the GT format key (legal to read: the key is reserved by the format).
+pub fn vcf_text_undeclared_gt(cols: &[String], recs: &[Rec], extra: bool) -> String {
+    vcf_text(cols, recs, extra).replace("##FORMAT=<ID=GT,Number=1,Type=String,Description=\"Genotype\">\n", "")
 }
 
 pub fn vcf_text(cols: &[String], recs: &[Rec], extra: bool) -> String {
